@@ -7,7 +7,7 @@ use linfa::{
     traits::{Predict, PredictInplace},
     ParamGuard,
 };
-use ndarray::{Array1, Array2, ArrayBase, ArrayView1, ArrayView2, Data, Ix1, Ix2};
+use ndarray::{Array1, Array2, ArrayBase, ArrayView1, ArrayView2, Axis, Data, Ix1, Ix2};
 use std::cmp::Ordering;
 
 use super::error::{Result, SvmError};
@@ -171,6 +171,18 @@ pub fn fit_nu<F: Float>(
     // the pre-combined weight vector of a linear kernel is scaled like the coefficients
     if let SeparatingHyperplane::Linear(ref mut w) = res.sep_hyperplane {
         w.mapv_inplace(|x| x / r);
+    }
+    // the support vectors were selected from the unscaled coefficients: select them again, with the
+    // filter `weighted_sum` applies to the rescaled ones, so that every row meets its own coefficient
+    if let SeparatingHyperplane::WeightedCombination(ref mut support_vectors) = res.sep_hyperplane {
+        let idx = res
+            .alpha
+            .iter()
+            .enumerate()
+            .filter(|(_, a)| a.abs() > F::cast(100.) * F::epsilon())
+            .map(|(i, _)| i)
+            .collect::<Vec<_>>();
+        *support_vectors = dataset.select(Axis(0), &idx);
     }
 
     res
